@@ -18,6 +18,7 @@ pub const OWN: &[&str] = &[
     "random_values_coincide",
     "tape_prefix_violation",
     "fake_masking_key_not_fresh",
+    "random_values_share_randomness",
     "rng_error_swallowed",
 ];
 
@@ -219,6 +220,63 @@ pub fn examine(seed: u64, idx: u64, s: &dyn SuiteOps, byte_cuts: usize) -> Verdi
             }
             prev_equal = Some(eq);
         }
+        // (vi) independence of the random values of one call: replacing a single draw,
+        // for every pair of values that are meant to be independently random there must be
+        // a draw that moves the one and not the other, in both directions
+        {
+            let pairs: &[(&str, &str)] = match op {
+                Op::NewSetup { .. } => &[("oprf_seed", "server_sk"), ("oprf_seed", "fake_sk"), ("server_sk", "fake_sk")],
+                Op::NewSetupWithKey { .. } => &[("oprf_seed", "fake_sk")],
+                Op::LoginStart { .. } => &[("blind", "client_nonce_msg"), ("blind", "client_e_sk"), ("client_nonce_msg", "client_e_sk")],
+                Op::LoginRespond { .. } => &[("masking_nonce", "server_nonce"), ("masking_nonce", "server_e_pk"), ("server_nonce", "server_e_pk")],
+                _ => &[],
+            };
+            if !pairs.is_empty() {
+                let mut moved: Vec<Vec<bool>> = vec![];
+                // rejection sampling (P-521 scalars) can make hundreds of draws, all but the last
+                // few discarded: perturb the last 10 draws only
+                let first = draws.len().saturating_sub(10);
+                for j in first..draws.len() {
+                    let mut tape: Vec<u8> = vec![];
+                    for (q, d) in draws.iter().enumerate() {
+                        if q == j {
+                            // perturb, do not redraw: one bit in the middle of the draw, so that a
+                            // rejection-sampling loop accepts/rejects the same draws and the
+                            // following draws keep their position on the tape
+                            let mut x = d.clone();
+                            if !x.is_empty() {
+                                let mid = x.len() / 2;
+                                x[mid] ^= 0x10;
+                            }
+                            tape.extend(x);
+                        } else {
+                            tape.extend_from_slice(d);
+                        }
+                    }
+                    let mut wj = w.clone();
+                    set_tape(&mut wj.ops[i], Tape::Scripted(format!("{label}/alt3"), Hex(tape)));
+                    wj.ops.truncate(i + 1);
+                    let rj = run_world(&wj);
+                    out.evals += 1;
+                    let rolj: Vec<(String, Vec<u8>)> = roles(s, &wj, &rj).into_iter().filter(|x| x.0 == i).map(|x| (x.1, x.2)).collect();
+                    if rolj.len() == mine.len() {
+                        moved.push(mine.iter().zip(rolj.iter()).map(|(a, b)| a.1 != b.1).collect());
+                    }
+                }
+                let idx_of = |n: &str| mine.iter().position(|x| x.0.ends_with(&format!(".{n}")));
+                for (a, b2) in pairs {
+                    let (Some(ia), Some(ib)) = (idx_of(a), idx_of(b2)) else { continue };
+                    let a_alone = moved.iter().any(|m| m[ia] && !m[ib]);
+                    let b_alone = moved.iter().any(|m| m[ib] && !m[ia]);
+                    if !moved.is_empty() && !(a_alone && b_alone) {
+                        let mut wj = w.clone();
+                        wj.note = format!("c17 independence of {a} and {b2} in op {i}");
+                        out.v.push((Violation { clause: "random_values_share_randomness", op: i, detail: format!("{}: no single draw moves {} without moving {} (or vice versa): the two values are not independently random", op.name(), if a_alone { b2 } else { a }, if a_alone { a } else { b2 }) }, wj));
+                        break;
+                    }
+                }
+            }
+        }
         // (iv) the hidden fake masking key: some single draw must move masked_response and nothing else random
         if let Op::LoginRespond { record: None, .. } = op {
             let idx_of = |n: &str| mine.iter().position(|x| x.0.ends_with(n));
@@ -287,7 +345,7 @@ pub fn judge_world(w: &World) -> Vec<Violation> {
 
 pub fn run(ctx: &Ctx) -> Report {
     let mut rep = Report::new(
-        "per (suite, world index): a world with two setups (the second through new_with_key with the SAME static key on its own tape), registration, real login, two no-record logins; (i) run twice on equal tapes: identical logs; (ii) run on independent tapes: every role value (OPRF seed, server/fake secret key, blind, blinded element, envelope nonce, client nonce, client ephemeral key pair, masking nonce, server nonce, server ephemeral key, fake masked response) differs between runs and no two coincide within a run; (iii) for every randomised op, every draw boundary and seeded byte offsets inside draws: tape = first n recorded bytes then fresh — nothing may stay fixed at k=0, everything must be reproduced at k=m, and the set of reproduced values grows monotonically; (iv) for no-record logins some single replaced draw must move the masked response and nothing else (the hidden fake masking key is drawn, not derived); (v) with a generator whose try_fill_bytes reports errors no op may succeed with different output. distinct = (suite, op, k, pattern of reproduced values)",
+        "per (suite, world index): a world with two setups (the second through new_with_key with the SAME static key on its own tape), registration, real login, two no-record logins; (i) run twice on equal tapes: identical logs; (ii) run on independent tapes: every role value (OPRF seed, server/fake secret key, blind, blinded element, envelope nonce, client nonce, client ephemeral key pair, masking nonce, server nonce, server ephemeral key, fake masked response) differs between runs and no two coincide within a run; (iii) for every randomised op, every draw boundary and seeded byte offsets inside draws: tape = first n recorded bytes then fresh — nothing may stay fixed at k=0, everything must be reproduced at k=m, and the set of reproduced values grows monotonically; (iv) for no-record logins some single replaced draw must move the masked response and nothing else (the hidden fake masking key is drawn, not derived); (v) with a generator whose try_fill_bytes reports errors no op may succeed with different output; (vi) for every pair of values of one call that are meant to be independently random (seed / server key / fake key; blind / client nonce / ephemeral key; masking nonce / server nonce / server ephemeral key) some single perturbed draw (one bit flipped in its middle, so that rejection-sampling loops keep their alignment) moves each without the other. distinct = (suite, op, k, pattern of reproduced values)",
     );
     let mut suites: Vec<&'static dyn SuiteOps> = SIM_SUITES.to_vec();
     suites.extend(ID_SUITES.iter().step_by(ctx.pick(5, 1)));
